@@ -21,6 +21,7 @@ async fn run(mut sim: Sim, seed: u64, lossy: bool) -> Result<Value, String> {
         limit: None,
         idle_ms: 10_000,
         keepalive_ms: Some(3_000),
+        hetero: false,
     };
     // four identities in PeerId order; roles assigned by the seed
     let keys = sim::sorted_keys(4, &mut sim.rng);
